@@ -47,9 +47,9 @@ class GenFamily:
         wf = {'id': 'm1', 'steps': [{'id': 's1', 'acts': [{'id': 'g1', 'uses': kind, 'params': {'in': lst, 'acts': acts}}]}, {'id': 's2', 'acts': [{'id': 'a2', 'uses': IRQ, 'key': 'after'}]}]}
         rt = rng.choice([{'flavor': 'current'}, {'flavor': 'current', 'chaos': {'max_yields': 3, 'seed': rng.randrange(1, 1 << 40)}}, {'flavor': 'multi', 'workers': 2, 'chaos': {'max_yields': 3, 'seed': rng.randrange(1, 1 << 40)}},
                          {'flavor': 'multi', 'workers': 4, 'chaos': {'max_yields': 2, 'seed': rng.randrange(1, 1 << 40)}}])
-        sc = {'id': '', 'family': 'gen', 'sched': rt['flavor'], 'seed': rng.randrange(1 << 30), 'runtime': rt, 'engine': {'store': 'mem', 'keep_processes': True}, 'models': [json.dumps(wf)],
+        sc = {'id': '', 'family': 'gen', 'sched': rt['flavor'], 'seed': rng.randrange(1 << 30), 'runtime': rt, 'engine': {'store': opts.get('store', 'mem'), 'keep_processes': True}, 'models': [json.dumps(wf)],
               'responder': {'mode': 'quiescent', 'order': rng.choice(['fifo', 'lifo', 'seeded']), 'rules': [{'match': {'uses': IRQ}, 'action': 'next', 'times': 10000}]},
-              'ops': [{'op': 'start', 'mid': 'm1', 'vars': {'pid': 'p1'}}, {'op': 'run', 'snap': 'live'}, {'op': 'snapshot', 'level': 'live'}]}
+              'ops': [{'op': 'start', 'mid': 'm1', 'vars': {'pid': 'p1'}}, {'op': 'run', 'snap': opts.get('snap', 'live')}, {'op': 'snapshot', 'level': opts.get('snap', 'live')}]}
         return {'scenarios': [sc], 'meta': {'sub': 'gen', 'wf': wf, 'kind': kind, 'list': lst, 'nested': nested, 'ikind': ikind, 'ilist': ilst, 'acts': acts}, 'digest': digest(wf), 'nontrivial': len(lst) >= 1}
 
     def gen_hooks(self, rng, opts):
@@ -85,9 +85,9 @@ class GenFamily:
         if su:
             wf['setup'] = su
         rt = rng.choice([{'flavor': 'current'}, {'flavor': 'current', 'chaos': {'max_yields': 3, 'seed': rng.randrange(1, 1 << 40)}}, {'flavor': 'multi', 'workers': 2, 'chaos': {'max_yields': 3, 'seed': rng.randrange(1, 1 << 40)}}])
-        sc = {'id': '', 'family': 'gen', 'sched': rt['flavor'], 'seed': rng.randrange(1 << 30), 'runtime': rt, 'engine': {'store': 'mem', 'keep_processes': True}, 'models': [json.dumps(wf)],
+        sc = {'id': '', 'family': 'gen', 'sched': rt['flavor'], 'seed': rng.randrange(1 << 30), 'runtime': rt, 'engine': {'store': opts.get('store', 'mem'), 'keep_processes': True}, 'models': [json.dumps(wf)],
               'responder': {'mode': 'quiescent', 'order': rng.choice(['fifo', 'lifo']), 'rules': [{'match': {'uses': IRQ}, 'action': 'next', 'times': 10000}]},
-              'ops': [{'op': 'start', 'mid': 'm1', 'vars': {'pid': 'p1'}}, {'op': 'run'}, {'op': 'snapshot', 'level': 'live'}]}
+              'ops': [{'op': 'start', 'mid': 'm1', 'vars': {'pid': 'p1'}}, {'op': 'run', 'snap': opts.get('snap', 'live')}, {'op': 'snapshot', 'level': opts.get('snap', 'live')}]}
         return {'scenarios': [sc], 'meta': {'sub': 'hooks', 'wf': wf, 'hooks': hooks}, 'digest': digest(wf), 'nontrivial': len(hooks) >= 1}
 
     def gen_push(self, rng, opts):
@@ -100,7 +100,7 @@ class GenFamily:
         order = [f'k{i}' for i in range(n)] + [f'kp{j}' for j in range(npush)]
         ops += [{'op': 'run'}, {'op': 'snapshot', 'level': 'live'}]
         rt = rng.choice([{'flavor': 'current'}, {'flavor': 'multi', 'workers': 2, 'chaos': {'max_yields': 3, 'seed': rng.randrange(1, 1 << 40)}}])
-        sc = {'id': '', 'family': 'gen', 'sched': rt['flavor'], 'runtime': rt, 'engine': {'store': 'mem', 'keep_processes': True}, 'models': [json.dumps(wf)],
+        sc = {'id': '', 'family': 'gen', 'sched': rt['flavor'], 'runtime': rt, 'engine': {'store': opts.get('store', 'mem'), 'keep_processes': True}, 'models': [json.dumps(wf)],
               'responder': {'mode': 'quiescent', 'order': rng.choice(['fifo', 'lifo']), 'rules': [{'match': {'uses': IRQ}, 'action': 'next', 'times': 100}]}, 'ops': ops}
         return {'scenarios': [sc], 'meta': {'sub': 'push', 'wf': wf, 'n': n, 'npush': npush, 'order': order}, 'digest': digest([wf, ops]), 'nontrivial': True}
 
